@@ -935,8 +935,8 @@ def run(ctx):
         "C06_seed_independent_fixed", "C06_neutral_uses_seed_independent", "C06_ordered_use_refuted",
         "C06_input_untouched_serialize",
         "C06_input_untouched_validate_zip", "C06_readonly_ops_keep_buffer"])
-    ctx.prove("C06/Inst.v", ["Gen/C06Sites.vo", "C06/Corr.vo"], expected=[
-        "C06_set_sites_neutral", "C06_nd_sites_no_result_sink"])
+    ctx.prove("C06/Inst.v", ["Gen/C06Sites.vo", "C06/Corr.vo"], expected=["C06_set_sites_neutral"])
+    ctx.prove("C06/InstNd.v", ["Gen/C06Sites.vo"], expected=["C06_nd_sites_no_result_sink"])
     ctx.prove("C06/InstPure.v", ["Gen/C06Sites.vo"], expected=["C06_input_stream_readonly"])
     ctx.prove("C06/InstObs.v", ["Gen/C06Sites.vo"], expected=["C06_observers_do_not_store"])
 
